@@ -110,11 +110,11 @@ def c15_2(ctx):
     for lp, name, e, r in adds:
         idx = norm(e.elts[2])
         maps = [x for x in w.effects if x.kind == "setitem" and norm(x.target) == "self.hash_to_index_lookup" and x.loops and x.loops[-1].node is lp]
-        ctx.check(len(maps) == 1 and norm(maps[0].value) == idx, "add-lockstep", ctx.where(a, lp),
+        ctx.check(len({id(m.node) for m in maps}) == 1 and all(norm(m.value) == idx for m in maps if sym.entails(m.reach, r) or sym.entails(r, m.reach)) and any(norm(m.value) == idx for m in maps), "add-lockstep", ctx.where(a, lp),
                   "('add', block, %s) is recorded while hash_to_index_lookup[h] = %s: the operations and the index map disagree" % (idx, [norm(m.value) for m in maps]), sample={"add_index": idx, "map_index": [norm(m.value) for m in maps]})
     for lp, name, e, r in rms:
         dels = [x for x in w.effects if x.kind == "delitem" and norm(x.target) == "self.hash_to_index_lookup" and x.loops and x.loops[-1].node is lp]
-        ctx.check(len(dels) == 1, "remove-lockstep", ctx.where(a, lp), "a ('remove', block, k) operation is not paired with `del hash_to_index_lookup[h]`")
+        ctx.check(len({id(x.node) for x in dels}) == 1, "remove-lockstep", ctx.where(a, lp), "a ('remove', block, k) operation is not paired with `del hash_to_index_lookup[h]`")
 
 
 # ------------------------------------------------------------------ C15.3
